@@ -9,6 +9,7 @@ Every rewrite is logged (file, line, kind) and reported in the evidence.
 from __future__ import annotations
 
 import ast
+import os
 import copy
 import hashlib
 import sys
@@ -157,11 +158,34 @@ def find_stmt(funcdef, pred, what):
 def make_function(name, params, body, modname, qualname, note):
     """Fragment extraction (rule 5): body statements are the repository's, verbatim (deep-copied AST)."""
     body = [copy.deepcopy(b) for b in body]
+    # a name the lifted statements only ever update in place (`x += ...`) is initialised outside them: it must be one of the fragment's parameters,
+    # otherwise the fragment's own UnboundLocalError would be mistaken for an outcome of the code
+    total, aug = {}, {}
+    for b in body:
+        for n in ast.walk(b):
+            if isinstance(n, ast.Name) and isinstance(n.ctx, ast.Store):
+                total[n.id] = total.get(n.id, 0) + 1
+            if isinstance(n, ast.AugAssign) and isinstance(n.target, ast.Name):
+                aug[n.target.id] = aug.get(n.target.id, 0) + 1
+    stale = sorted(k for k in aug if aug[k] == total.get(k, 0) and k not in params)
+    if stale:
+        raise BindingError("fragment %s updates %s in place but no longer initialises it: the statements the contract was written for have moved" % (name, ", ".join(stale)))
     for b in body[1:]:           # synthetic trailing statements (e.g. a `return`) take the location of the lifted statement
         if getattr(b, "lineno", 0) < body[0].lineno:
             for n in ast.walk(b):
                 if hasattr(n, "lineno"):
                     n.lineno = n.end_lineno = getattr(body[0], "end_lineno", body[0].lineno)
+    try:        # names the enclosing function assigns outside the lifted statements (see core._from_code_under_test)
+        from . import core as _core
+        enclosing = Source.of(sys.modules[modname]).get_def(qualname)
+        lo, hi = min(b.lineno for b in body if getattr(b, "lineno", 0)), max(getattr(b, "end_lineno", b.lineno) for b in body)
+        outer = set()
+        for n in ast.walk(enclosing):
+            if isinstance(n, ast.Name) and isinstance(n.ctx, ast.Store) and not (lo <= n.lineno <= hi):
+                outer.add(n.id)
+        _core.FRAGMENT_OUTER_STORES[name] = outer - set(params)
+    except Exception:
+        pass
     REWRITE_LOG.append(("fragment-extraction", modname, qualname, body[0].lineno, note))
     fn = ast.FunctionDef(
         name=name,
@@ -203,3 +227,33 @@ def load(module, qualnames, hooks=None, while_invs=None, extra_ns=None, tag="pcv
     ns = {("pvhook_" + k): v for k, v in hooks.items()}
     ns.update(extra_ns or {})
     return compile_defs(module, defs, ns, tag)
+
+
+
+def library_signatures(repo):
+    """qualified name -> parameter list (with * / ** markers) of every function and method of the library modules, read from the source text"""
+    import glob
+    out = {}
+    for path in sorted(glob.glob(os.path.join(repo, "code_data", "*.py"))):
+        base = os.path.basename(path)[:-3]
+        if "test" in base or base == "module_codes":
+            continue
+        mod = "code_data" if base == "__init__" else "code_data." + base
+        try:
+            tree = ast.parse(open(path, encoding="utf-8").read())
+        except SyntaxError:
+            continue
+
+        def sig(fn):
+            a = fn.args
+            return ([x.arg for x in a.posonlyargs + a.args] + (["*" + a.vararg.arg] if a.vararg else []) + [x.arg for x in a.kwonlyargs] + (["**" + a.kwarg.arg] if a.kwarg else []))
+        for node in tree.body:
+            if isinstance(node, (ast.FunctionDef, ast.AsyncFunctionDef)):
+                out["%s.%s" % (mod, node.name)] = sig(node)
+            elif isinstance(node, ast.ClassDef):
+                fields = [st.target.id for st in node.body if isinstance(st, ast.AnnAssign) and isinstance(st.target, ast.Name)]
+                out["%s.%s" % (mod, node.name)] = ["<fields>"] + fields
+                for m in node.body:
+                    if isinstance(m, (ast.FunctionDef, ast.AsyncFunctionDef)):
+                        out["%s.%s.%s" % (mod, node.name, m.name)] = sig(m)
+    return out
